@@ -16,6 +16,87 @@ MODE = 'layers::encrypt::FailSafeReaderDecryptionMode'
 UNAUTH = {'load_in_cache_unauthenticated', 'read_internal_unauthenticated', 'decrypt_unauthenticated'}
 
 
+
+def wrong_tag_swallows(prog, skip_keys=()):
+    """error discipline for the authentication failure: F = functions of crate mla that may return Err(AuthenticatedDecryptionWrongTag)
+    (they build it, or an exactly resolved callee in F hands it to them). For every call site of a member of F, on the paths that start on the
+    Err / Break edge of the call's result and are consistent with the error being the wrong-tag one, no Ok(..) result may be reachable: the
+    failure is handed to the caller, never turned into success. Returns (n_sites, [(body, call_block, ok_block)])."""
+    mla = prog.crates['mla']
+    F = {}
+    for b in mla.bodies:
+        for bl in b.blocks:
+            if bl.cleanup:
+                continue
+            for st in bl.stmts:
+                if st.kind == 'assign' and st.rv.r == 'aggregate' and st.rv.j.get('adt') == 'errors::Error' and st.rv.j.get('variant') == 'AuthenticatedDecryptionWrongTag':
+                    F[b.key] = b
+    sites = {}
+    changed = True
+    bydef = {b.defpath: b for b in mla.bodies}
+    while changed:
+        changed = False
+        # function pointers: a member of F reified as `fn(..) -> ..` makes every indirect call through a pointer of that type a site
+        fptr_tys = set()
+        for b in mla.bodies:
+            for bl in b.blocks:
+                for st in bl.stmts:
+                    if st.kind == 'assign' and st.rv.r == 'cast' and 'ReifyFnPointer' in st.rv.j.get('kind', ''):
+                        k = (st.rv.j.get('op') or {}).get('k') or {}
+                        tgt = bydef.get(k.get('fn', ''))
+                        if tgt is not None and tgt.key in F:
+                            fptr_tys.add(st.rv.j.get('ty'))
+        for b in mla.bodies:
+            if b.kind == 'Closure':
+                continue
+            for blk in b.calls():
+                if 'indirect' in blk.term.callee:
+                    if blk.term.callee.get('fty') in fptr_tys:
+                        sites[(b.key, blk.idx)] = (b, blk)
+                        if b.key not in F and b.lty(0).startswith('std::result::Result<'):
+                            F[b.key] = b
+                            changed = True
+                    continue
+                cands, exact = resolve_call(prog, b, blk.term)
+                if exact and len(cands) == 1 and cands[0].key in F and cands[0].key != b.key:
+                    sites[(b.key, blk.idx)] = (b, blk)
+                    if b.key not in F and b.lty(0).startswith('std::result::Result<'):
+                        F[b.key] = b
+                        changed = True
+    bad = []
+    for (bk, bi), (b, blk) in sorted(sites.items()):
+        if bk in skip_keys or blk.term.target is None:
+            continue
+        cut = []
+        for ebb, esi in arm_of_enum_switch(prog, b, adt='errors::Error'):
+            wt = enum_arm_target(esi, 'AuthenticatedDecryptionWrongTag')
+            keep = wt if wt is not None else esi['otherwise']
+            for t in set(list(esi['arms'].values()) + [esi['otherwise']]):
+                if t is not None and t != keep:
+                    cut.append((ebb, t))
+        found = False
+        for rbb, rsi in arm_of_enum_switch(prog, b):
+            if rsi['adt'] not in ('std::result::Result', 'std::ops::ControlFlow'):
+                continue
+            o = origins(b, [rsi['place'][0]], through_calls=True)
+            if blk.idx not in o.calls:
+                continue
+            et = enum_arm_target(rsi, 'Err') if rsi['adt'] == 'std::result::Result' else enum_arm_target(rsi, 'Break')
+            if et is None:
+                continue
+            found = True
+            for t in set(list(rsi['arms'].values()) + [rsi['otherwise']]):
+                if t is not None and t != et:
+                    cut.append((rbb, t))
+        if not found:
+            continue   # the result is returned as is (tail call) or moved into the function result
+        r = b.reachable(blk.term.target, removed_edges=cut)
+        oks = [x.idx for x in b.blocks if x.idx in r and not x.cleanup and any(
+            st.kind == 'assign' and st.rv.r == 'aggregate' and st.rv.j.get('variant') == 'Ok' and 'Result' in (st.rv.j.get('adt') or '') for st in x.stmts)]
+        if oks:
+            bad.append((b, blk, oks[0]))
+    return len(sites), sites, bad
+
 def run(prog, rep, tier):
     mla = prog.crates['mla']
     # ---------------- R04.1 arm isolation
@@ -167,6 +248,23 @@ def run(prog, rep, tier):
                    'unauthenticated load in the constructor only under the unauthenticated mode' if ok else
                    'constructor calls %s unconditionally: chunk 0 is decrypted without tag verification in the default (authenticated) mode' % b.term.cmethod,
                    nw.loc(b.idx))
+
+    # ---------------- R04.5 the authentication failure reaches the latch: nothing below turns it into success
+    n_s, sites, bad = wrong_tag_swallows(prog, skip_keys=(rd.key,) if rd is not None else ())
+    rep.floor('R04.5', n_s, 5, 'call sites of functions that may return AuthenticatedDecryptionWrongTag')
+    badk = {(b.key, blk.idx): okb for b, blk, okb in bad}
+    cnt = collections.Counter()
+    for (bk, bi), (b, blk) in sorted(sites.items()):
+        if rd is not None and bk == rd.key:
+            continue
+        rep.fn(b)
+        base = '%s|%s' % (b.nkey, blk.term.cmethod)
+        key = 'R04.5|%s#%d|wrong-tag-propagated' % (base, cnt[base])
+        cnt[base] += 1
+        okb = badk.get((bk, bi))
+        rep.ob('R04.5', okb is None, key, 'a wrong-tag error of %s is handed to the caller' % (blk.term.cmethod or 'fn pointer') if okb is None else
+               'a wrong-tag error returned by %s can reach an Ok(..) result of %s (at %s): the failed chunk is skipped silently and the fail-safe reader above never '
+               'sees the failure, so reading resumes with the chunks after it' % (blk.term.cmethod, b.nkey, b.loc(okb)), b.loc(blk.idx))
 
     # ---------------- R04.4 stop at the first failed chunk (latch)
     if rd is not None:
